@@ -60,18 +60,20 @@ Inductive kind :=
 | KCxx      (* reference<T>::type of mpt++ *)
 | KIterFd   (* mpt_iterator_file(fd): no file name, cannot be cloned *)
 | KIterName (* mpt_iterator_filename(name): clone opens the file again *)
-| KXGen.    (* metatype::generic of mpt++ (held by reference<metatype>) *)
+| KXGen     (* metatype::generic of mpt++ (held by reference<metatype>) *)
+| KStage.   (* the stage buffer of a rawdata object (rawdata_create.c: _mpt_buffer_alloc with stage traits) *)
 
 Inductive cls := Counted | Unique | Static.
 
 Definition cls_of (k : kind) : cls :=
   match k with
-  | KBuf | KHBuf | KHCnt | KReply | KRaw | KStream | KCxx | KIterFd | KIterName | KXGen => Counted
+  | KBuf | KHBuf | KHCnt | KReply | KRaw | KStream | KCxx | KIterFd | KIterName | KXGen | KStage => Counted
   | KHUni | KGen | KMetaBuf | KCfg => Unique
   | KCfgTop => Static
   end.
 
-Definition is_buf (k : kind) : bool := match k with KBuf | KHBuf => true | _ => false end.
+Definition is_buf (k : kind) : bool := match k with KBuf | KHBuf | KStage => true | _ => false end.
+Definition is_stage (k : kind) : bool := match k with KStage => true | _ => false end.
 Definition is_cxx (k : kind) : bool := match k with KCxx | KXGen => true | _ => false end.
 Definition is_xgen (k : kind) : bool := match k with KXGen => true | _ => false end.
 Definition is_reply (k : kind) : bool := match k with KReply => true | _ => false end.
@@ -245,7 +247,12 @@ Inductive op :=
 | XSetInst (s d : nat)             (* r[d].set_instance(p[s]); p[s] = 0 *)
 | XDrop (d : nat)                  (* r[d].set_instance(0) *)
 | XGen (d : nat)                   (* r[d].set_instance(metatype::generic::create(type, ptr)) *)
-| XClone (s d : nat).              (* p[d] = r[s].instance()->clone() *)
+| XClone (s d : nat)               (* p[d] = r[s].instance()->clone() *)
+| ORawModify (m : nat)             (* rawdata->modify(dim, value, dest) that stores a value *)
+| ORawAdvance (m : nat)            (* rawdata->advance() (cycle limit 0) *)
+| ORawGet (m a : nat)              (* mpt_array_clone(&arr[a], &rawdata->st) *)
+| ORawCall (m : nat) (fails : bool). (* a call that takes no reference: conversions, values/dimensions/stages;
+                                      modify refused for its type or cycle (fails) *)
 
 Inductive out := OX | OD | OE | ORet (n : N).
 
@@ -260,7 +267,7 @@ Definition kind_in_bank (k : kind) (b : nat) : bool :=
   | _ => false
   end.
 Definition creatable (k : kind) : bool :=
-  match k with KMetaBuf | KCxx | KXGen => false | _ => true end.
+  match k with KMetaBuf | KCxx | KXGen | KStage => false | _ => true end.
 Definition is_none {A} (v : option A) : bool := match v with None => true | _ => false end.
 Definition kind_is (kd : nat -> option kind) (v : option nat) (p : kind -> bool) : bool :=
   match v with Some o => match kd o with Some k => p k | None => false end | None => false end.
@@ -284,7 +291,7 @@ Definition guard (hsl : list (option nat)) (kd : nat -> option kind) (hld : nat 
   | OArrClear d => bank d =? 1
   | ODetach a | ODetachF a => (bank a =? 1) && kind_is kd (sl a) is_libbuf
   | OSetInner m a => (bank m =? 0) && (bank a =? 1) && kind_is kd (sl m) is_raw
-                     && (is_none (sl a) || kind_is kd (sl a) is_buf)
+                     && (is_none (sl a) || kind_is kd (sl a) is_stage)   (* the member holds stage buffers only *)
   | ODefer s d => (bank s =? 0) && (bank d =? 2) && kind_is kd (sl s) is_reply && is_none (sl d)
   | OForce s v => ((bank s =? 0) || (bank s =? 1) || (bank s =? 3))
                   && kind_is kd (sl s) is_counted
@@ -300,6 +307,20 @@ Definition guard (hsl : list (option nat)) (kd : nat -> option kind) (hld : nat 
   | XDrop d => bank d =? 3
   | XGen d => bank d =? 3
   | XClone s d => (bank s =? 3) && (bank d =? 4) && kind_is kd (sl s) is_xgen && is_none (sl d)
+  | ORawModify m | ORawAdvance m | ORawCall m _ => (bank m =? 0) && kind_is kd (sl m) is_raw
+  | ORawGet m a => (bank m =? 0) && (bank a =? 1) && kind_is kd (sl m) is_raw
+  end.
+
+(* mpt_array_clone: "buffers content types must be identical" — a stage buffer carries the stage traits, every
+   other buffer of the model is untyped; replacing one by the other is refused (BadType) *)
+Definition tmismatch (kd : nat -> option kind) (a b : option nat) : bool :=
+  match a, b with
+  | Some x, Some y =>
+      match kd x, kd y with
+      | Some k1, Some k2 => negb (Bool.eqb (is_stage k1) (is_stage k2))
+      | _, _ => false
+      end
+  | _, _ => false
   end.
 
 Definition kind_at (s : st) (o : nat) : option kind :=
@@ -385,6 +406,7 @@ Definition p_arrclone (s : st) (si d : nat) : res (st * out) :=
   let buf := slot s d in
   let set := slot s si in
   if eq_opt set buf then Ok (s, ORet 0) else
+  if tmismatch (kind_at s) set buf then Ok (s, OE) else   (* content traits differ: BadType *)
   do '(s1, ok) <- retain s set;                 (* if (set && !set->addref(set)) return BadOperation *)
   if negb ok then Ok (s1, OE) else
   let '(s2, old) := m_take s1 d in
@@ -426,12 +448,63 @@ Definition p_setinner (s : st) (o a : nat) : res (st * out) :=
   let buf := oinner x in
   let set := slot s a in
   if eq_opt set buf then Ok (s, ORet 0) else
+  if tmismatch (kind_at s) set buf then Ok (s, OE) else
   do '(s1, ok) <- retain s set;
   if negb ok then Ok (s1, OE) else
   do x1 <- live s1 o;
   let s2 := take_inner s1 o x1 in
   do s3 <- put_inner s2 o set;
   match buf with
+  | Some b => do s4 <- m_unref s3 b; Ok (s4, ORet (if is_none set then 2 else 3))
+  | None => Ok (s3, ORet (if is_none set then 0 else 1))
+  end.
+
+(* rd_modify, the part that holds references: the stage array of the rawdata object.
+     if (!buf) { buf = _mpt_buffer_alloc(..); buf->_content_traits = stage_traits; rd->st._buf = buf; }
+     mpt_array_slice(&rd->st, nc * size, size): a shared buffer is detached (typed copy), the array gets the copy
+   (the value stores inside the stages are contents of the buffer: not modelled) *)
+Definition p_modify (s : st) (o : nat) : res (st * out) :=
+  do x <- live s o;
+  match oinner x with
+  | None =>
+      let '(s1, n) := m_new s KStage None in
+      do s2 <- put_inner s1 o (Some n);
+      Ok (s2, OD)
+  | Some b =>
+      do y <- live s b;
+      if (ocnt y <? 2)%N then Ok (s, OD) else       (* not shared: in place *)
+      let '(s1, n) := m_new s KStage None in        (* detach: next = _mpt_buffer_alloc() *)
+      do x1 <- live s1 o;
+      let s2 := take_inner s1 o x1 in
+      do s3 <- m_unref s2 b;                        (* mpt_refcount_lower(&buf->_ref) *)
+      do s4 <- put_inner s3 o (Some n);             (* arr->_buf = next *)
+      Ok (s4, OD)
+  end.
+
+(* rd_advance with cycle limit 0: act stays 0; an existing stage buffer (>= 1 stage) is reused,
+   an empty object gets its first stage *)
+Definition p_advance (s : st) (o : nat) : res (st * out) :=
+  do x <- live s o;
+  match oinner x with
+  | None =>
+      let '(s1, n) := m_new s KStage None in
+      do s2 <- put_inner s1 o (Some n);
+      Ok (s2, OD)
+  | Some _ => Ok (s, OD)
+  end.
+
+(* mpt_array_clone(&arr[a], &rd->st) *)
+Definition p_rawget (s : st) (o a : nat) : res (st * out) :=
+  do x <- live s o;
+  let buf := slot s a in
+  let set := oinner x in
+  if eq_opt set buf then Ok (s, ORet 0) else
+  if tmismatch (kind_at s) set buf then Ok (s, OE) else
+  do '(s1, ok) <- retain s set;
+  if negb ok then Ok (s1, OE) else
+  let '(s2, old) := m_take s1 a in
+  let s3 := m_put s2 a set in
+  match old with
   | Some b => do s4 <- m_unref s3 b; Ok (s4, ORet (if is_none set then 2 else 3))
   | None => Ok (s3, ORet (if is_none set then 0 else 1))
   end.
@@ -530,6 +603,10 @@ Definition exec (s : st) (o : op) : res (st * out) :=
   | XDrop d => x_drop s d
   | XGen d => x_new s KXGen d
   | XClone si d => match slot s si with Some o => x_clone s o d | None => Ok (s, OX) end
+  | ORawModify m => match slot s m with Some o => p_modify s o | None => Ok (s, OX) end
+  | ORawAdvance m => match slot s m with Some o => p_advance s o | None => Ok (s, OX) end
+  | ORawGet m a => match slot s m with Some o => p_rawget s o a | None => Ok (s, OX) end
+  | ORawCall m fails => Ok (s, if fails then OE else OD)
   end.
 
 Definition step (s : st) (o : op) : res (st * out) :=
